@@ -1,6 +1,7 @@
 package bodytree
 
 import (
+	"crypto/sha256"
 	"sort"
 	"strings"
 )
@@ -626,7 +627,7 @@ func ForEachGlobal(t Tree, al *Alphabet, full bool, f func(Rendering) bool) {
 	nofinal := Dev{Slot: slotNoFinalNL, Kind: "global.final-newline", Var: "missing"}
 	none := Dev{Slot: slotIndent, Kind: "global.indent", Var: "none"}
 	tab := Dev{Slot: slotIndent, Kind: "global.indent", Var: "tab"}
-	seen := map[string]struct{}{}
+	seen := map[[sha256.Size]byte]struct{}{} // digests: the texts reach megabytes
 	sets := [][]Dev{nil, {crlf}, {nofinal}, {tab, crlf}}
 	if full {
 		sets = append(sets, []Dev{crlf, nofinal}, []Dev{none}, []Dev{tab})
@@ -636,10 +637,11 @@ func ForEachGlobal(t Tree, al *Alphabet, full bool, f func(Rendering) bool) {
 		if !ok {
 			continue
 		}
-		if _, dup := seen[src]; dup {
+		h := sha256.Sum256([]byte(src))
+		if _, dup := seen[h]; dup {
 			continue
 		}
-		seen[src] = struct{}{}
+		seen[h] = struct{}{}
 		if !f(Rendering{Src: src, Devs: append([]Dev(nil), devs...), FlushTab: flushTab}) {
 			return
 		}
